@@ -14,7 +14,10 @@ class PrintUsingFormatter:
         non_formatting = ''
         redo_no_number = False
         while i < len(fmt):
-            if fmt[i] in ['#', '+', '-'] and not redo_no_number:
+            starts_field = fmt[i] in ['#', '+', '-'] or (
+                # a field may begin with its decimal point
+                fmt[i] == '.' and fmt[i+1:i+2] == '#')
+            if starts_field and not redo_no_number:
                 if non_formatting:
                     self.fmt_parts.append(('non', non_formatting))
                     non_formatting = ''
@@ -148,6 +151,15 @@ class PrintUsingFormatter:
         value = abs(value)
 
         result = fmt_str.format(value)
+
+        if 'decimal_point' in options:
+            if options['decimals'] == 0:
+                # "##.": the point is a position of the field
+                result += '.'
+            elif options['real_sharps'] == options['decimals'] and \
+                    result.startswith('0.'):
+                # ".##": no digit position in front of the point
+                result = result[1:]
 
         if sign_type == '-':
             sign = '-' if sign == -1 else ' '
